@@ -188,9 +188,7 @@ def c14_b(ctx):
               node=sup[0] if sup else rm.node)
     # the observation is dropped whenever present: guard is membership only
     for p in pops:
-        gs = ctx.guards(rm, p)
-        ok = all(pol and match(t, pattern('name in self.observed')) is not None
-                 for (t, pol, _) in gs)
+        ok = ctx.only_guarded_by(rm, p, ('name in self.observed',))
         ctx.check(ok, rm, 'observation dropped whenever present', 'guard: name in observed',
                   'the observation is dropped only under an extra condition', fn=rm, node=p)
     # GraphicalModel.remove_node: parents read before removal, private orphans removed virtually
